@@ -119,7 +119,7 @@ def _h_history(ctx, cfg):
   allelems = list(src)
   keep = {}
   def truthy(e):
-    k = str(e.t) if isinstance(e, SymElem) else e
+    k = str(e.t) if isinstance(e, SymElem) else e.v
     if k not in keep: keep[k] = bool(ctx.split("keep%d" % len(keep), 0, 1))
     return keep[k]
   filtered = False
